@@ -200,7 +200,14 @@ impl World for BoundedLoops {
             let progs: Vec<Option<u64>> = real.trace.iter().filter_map(|e| match e { Ev::Eval { id: 1, aux, .. } => Some(*aux), _ => None }).collect();
             for (k, pr) in progs.iter().enumerate() {
                 let exp = (k as f64) / (case.n as f64);
-                if *pr != Some(exp.to_bits()) {
+                let ok = match pr {
+                    Some(b) => {
+                        let got = f64::from_bits(*b);
+                        got.to_bits() == exp.to_bits() || (got.is_nan() && exp.is_nan()) || (got - exp).abs() <= 1e-12 * (1.0 + exp.abs())
+                    }
+                    None => false,
+                };
+                if !ok {
                     bad = Some(Violation::new("bounded-loop-progress", format!("{case:?}: progress after test #{k} is {:?}, expected {exp}", pr.map(f64::from_bits))));
                     break;
                 }
